@@ -71,9 +71,17 @@ class TCPServer:
                     self.protocol_send,
                     alpn_protocol,
                 )
-                await self.protocol.initiate()
-                await self.idle_task.restart(self._task_group, self._idle_timeout)
-                await self._read_data()
+                try:
+                    await self.protocol.initiate()
+                    await self.idle_task.restart(self._task_group, self._idle_timeout)
+                    await self._read_data()
+                except trio.Cancelled:
+                    # Cancelled (e.g. the graceful shutdown deadline has
+                    # passed), sends are shielded so one that is waiting
+                    # for a client that does not read would hold this up
+                    # for as long as the client likes - close forcefully.
+                    await trio.aclose_forcefully(self.stream)
+                    raise
                 # The peer is gone, do not wait for the keep alive timeout
                 self.reading = False
                 await self.idle_task.stop()
